@@ -8,6 +8,7 @@ package ast
 import (
 	"fmt"
 	"iter"
+	"strings"
 
 	"github.com/elk-language/elk/position"
 	"github.com/elk-language/elk/token"
@@ -120,6 +121,20 @@ func ExpressionAssociativity(expr ExpressionNode) Associativity {
 	}
 
 	return NON_ASSOCIATIVE
+}
+
+// Write an expression in a position where the grammar expects
+// an expression without modifiers (initialisers, default values).
+// Modifier expressions like `a if b` have to be parenthesised there.
+func writeExpressionWithoutModifier(buff *strings.Builder, expr ExpressionNode) {
+	switch expr.(type) {
+	case *ModifierNode, *ModifierIfElseNode, *ModifierForInNode:
+		buff.WriteRune('(')
+		buff.WriteString(expr.String())
+		buff.WriteRune(')')
+	default:
+		buff.WriteString(expr.String())
+	}
 }
 
 func StatementPrecedence(stmt StatementNode) uint8 {
